@@ -43,6 +43,30 @@ GRID_ASSUME = {
 }
 
 
+def isolate_grid_crash(prop, tier, sig):
+    """Case-by-case rerun after the grid process died: returns a result with the first crashing case as a violation."""
+    from concurrent.futures import ThreadPoolExecutor
+    exe = os.path.join(BIN, "grid")
+    r = subprocess.run([exe, prop.lower(), "--tier", tier, "--out", "/dev/null"], env=dict(ENV, GRID_LIST="1"), stdout=subprocess.PIPE, stderr=subprocess.PIPE, text=True)
+    names = [l for l in r.stdout.splitlines() if l.strip()]
+    if not names:
+        return None
+
+    def one(name):
+        q = subprocess.run([exe, prop.lower(), "--tier", tier, "--only", name, "--out", "/dev/null"], env=ENV, stdout=subprocess.PIPE, stderr=subprocess.PIPE, text=True)
+        return name, q.returncode, q.stderr.strip()[-300:]
+
+    with ThreadPoolExecutor(max_workers=16) as ex:
+        results = list(ex.map(one, names))
+    crashed = [(n, rc, e) for n, rc, e in results if rc < 0]
+    if not crashed:
+        return None
+    viol = [{"case": n, "message": f"the process was killed by signal {-rc} while running this case alone (an abort raised by a safety check of the standard library or the allocator, or a wild memory access): {e}"} for n, rc, e in crashed]
+    log(f"[{prop.lower()}] the grid process died by signal {sig}; isolated {len(crashed)} crashing case(s) out of {len(names)}, first: {crashed[0][0]}")
+    return {"grid": prop.lower(), "evaluations": len(names), "distinct_nontrivial": len(names), "rule": "case-by-case rerun after a crash of the grid process", "samples": names[:3],
+            "violations": viol, "violation_count": len(viol), "extra": {"exhaustive": False, "crash_isolated": True}}
+
+
 def run_grid(prop, tier, extra_parts=None):
     """Runs the grid binary for prop; returns (rc, evidence parts)."""
     cm = check_mod()
@@ -53,6 +77,15 @@ def run_grid(prop, tier, extra_parts=None):
         os.remove(out)
     r = subprocess.run([os.path.join(BIN, "grid"), prop.lower(), "--tier", tier, "--out", out], env=ENV, stdout=subprocess.PIPE, stderr=subprocess.PIPE, text=True)
     log(r.stderr.strip()[-1500:])
+    if not os.path.exists(out) and r.returncode < 0:
+        # the process was killed by a signal (abort of a standard-library / allocator safety check, wild access):
+        # find the case by running every case in a process of its own
+        res = isolate_grid_crash(prop, tier, -r.returncode)
+        if res is None:
+            log(f"MACHINERY: grid engine died (signal {-r.returncode}) and no single case reproduces it: {r.stderr.strip()[-600:]}")
+            return 2, None
+        res["wall"] = time.time() - t0
+        return 1, res
     if not os.path.exists(out):
         log(f"MACHINERY: grid engine died (exit {r.returncode}): {r.stderr.strip()[-600:]}")
         return 2, None
